@@ -113,6 +113,10 @@ def handle : Handler := fun op args =>
       if (unitDefs.map (·.1)).contains n then
         "ok " ++ (if isStatic unitDefs n then "static" else "dynamic") ++ " " ++ (valueS unitDefs n).show
       else "undef"
+  | "c20.ident" => withArgs pNat args fun i =>
+      match derivedIdentities[i]? with
+      | some (lhs, rhs) => "ok " ++ lhs ++ " " ++ rhs.show
+      | none => "undef"
   | "c20.units" => withArgs (pure ()) args fun _ =>
       "ok " ++ toString unitDefs.length ++ " " ++ (if wellOrdered unitDefs then "wo1" else "wo0") ++ " "
         ++ (if derivedOK unitDefs then "id1" else "id0") ++ " " ++ " ".intercalate (unitDefs.map (·.1))
